@@ -62,6 +62,8 @@ TagsSayArea(tags) ==
 WayIsArea(nrefs, closed, tags) == nrefs > 3 /\ closed /\ TagsSayArea(tags)
 RelationIsArea(tags) == ValueOf(tags, "type") \in {"multipolygon", "boundary"}
 
+\* c.ann says how the way's node refs are annotated (versions / locations on some of them): "closed" is about node ids only,
+\* so the annotation must not matter -- Expected ignores it on purpose
 Expected(c) == IF c.kind = "way" THEN WayIsArea(c.nrefs, c.closed, c.tags) ELSE RelationIsArea(c.tags)
 
 (* ------------------------------ input space ---------------------------- *)
@@ -99,8 +101,26 @@ Relations ==
             {<< <<"building", "yes">>, <<"type", v>> >> : v \in {"multipolygon", "route"}} \cup
             {<< <<"area", "yes">> >>, << <<"building", "yes">> >>}}
 
+\* many unrelated tags around the deciding ones ("depends only on the tag set, not on ... unrelated tags"), in front and behind
+NoiseTags(n) == [i \in 1 .. n |-> <<"note:" \o ToString(i), "x" \o ToString(i)>>]
+Deciding == { << <<"building", "yes">>, <<"area", "no">> >>, << <<"area", "no">>, <<"building", "yes">> >>,
+              << <<"highway", "pedestrian">>, <<"area", "yes">> >>, << <<"highway", "services">> >>, << <<"natural", "coastline">> >>,
+              << <<"natural", "water">> >>, << <<"waterway", "dock">> >>, << <<"aeroway", "taxiway">>, <<"military", "airfield">> >>,
+              << <<"man_made", "pipeline">> >>, << <<"area", "">>, <<"shop", "no">> >>, << <<"indoor", "room">> >>, << >> }
+Noisy == { [kind |-> "way", nrefs |-> 5, closed |-> TRUE, tags |-> (IF front THEN NoiseTags(n) \o d ELSE d \o NoiseTags(n))] :
+             n \in {7, 8, 9, 10, 16, 33}, d \in Deciding, front \in BOOLEAN }
+         \cup { [kind |-> "way", nrefs |-> 5, closed |-> TRUE, tags |-> SubSeq(NoiseTags(n), 1, n \div 2) \o d \o SubSeq(NoiseTags(n), n \div 2 + 1, n)] :
+             n \in {9, 16}, d \in Deciding }
+\* annotated node refs: every / only the last bare / first and last annotated differently / only some carrying a location
+Anns == {"none", "all", "lastbare", "differ", "partial"}
+Annotated == { [c EXCEPT !.ann = a] : a \in Anns \ {"none"},
+               c \in { [kind |-> "way", nrefs |-> n, closed |-> cl, tags |-> t, ann |-> "none"] :
+                          n \in {3, 4, 5}, cl \in BOOLEAN, t \in { << <<"building", "yes">> >>, << <<"highway", "services">> >>, << <<"area", "yes">> >>,
+                                                                  << <<"natural", "cliff">> >>, << >> } } }
+
 CONSTANT FullPairs
-Cases == Singles \cup Cross \cup Pairs(FullPairs) \cup Relations
+WithAnn(S) == { [kind |-> c.kind, nrefs |-> c.nrefs, closed |-> c.closed, tags |-> c.tags, ann |-> "none"] : c \in S }
+Cases == WithAnn(Singles \cup Cross \cup Pairs(FullPairs) \cup Relations \cup Noisy) \cup Annotated
 
 VARIABLE case
 Init == case \in Cases
